@@ -123,7 +123,10 @@ def by_value(v):
     if isinstance(v, np.ndarray):
         return not (v.dtype.kind == 'f' and v.size > 0)
     if isinstance(v, (list, tuple)):
-        return not any(isinstance(e, np.ndarray) and e.dtype.kind == 'f' and e.size > 0 for e in v)
+        # (recursively: a per-dataset list of per-fold lists of matrices is storage like a flat list)
+        return all(by_value(e) if isinstance(e, (np.ndarray, list, tuple)) else True for e in v)
+    if isinstance(v, dict):
+        return all(by_value(e) if isinstance(e, (np.ndarray, list, tuple, dict)) else True for e in v.values())
     return True
 
 
@@ -215,6 +218,54 @@ def fingerprint(x, _path='', _rdm_dict=False, _seen=None):
         return ('pyobj', type(x).__name__,
                 tuple((n, fingerprint(v, f'{_path}.{n}', False, _seen)) for n, v in sorted(vars(x).items())))
     return ('other', type(x).__name__, repr(x)[:80])
+
+
+def entry_identities(x, _path='', out=None, _seen=None):
+    """round 7 — the *identity* of the entries of the caller's containers: [(path, container, key,
+       entry)] for every entry of every list / tuple / dict reachable from x through lists / tuples /
+       dicts only (the user's own containers: argument lists, per-fold noise lists / dicts, lists of
+       datasets) that is an array, a container or a library object.  The entries are held here, so no
+       id() can be recycled between the two looks"""
+    if out is None:
+        out, _seen = [], set()
+    if isinstance(x, dict):
+        items = list(x.items())
+    elif isinstance(x, (list, tuple)):
+        items = list(enumerate(x))
+    else:
+        return out
+    if id(x) in _seen:
+        return out
+    _seen.add(id(x))
+    for k, e in items:
+        if isinstance(e, np.ndarray) and e.ndim < 2:
+            continue        # a label / value sequence: compared by value (list <-> array conversion of a
+            #                 loaded dictionary's descriptor by dict_to_list is not a change), see fingerprint
+        if isinstance(e, (list, tuple)) and all(not isinstance(v, (np.ndarray, list, tuple, dict)) and not _is_rsa(v)
+                                                for v in e):
+            continue        # likewise: a plain sequence of scalars
+        if isinstance(e, (np.ndarray, list, tuple, dict)) or _is_rsa(e):
+            pth = f'{_path}[{k!r}]'
+            out.append((pth, x, k, e))
+            entry_identities(e, pth, out, _seen)
+    return out
+
+
+def identity_diffs(before, skip=()):
+    """paths of the entries recorded by `entry_identities` that are no longer the same object
+       (`container[k] is original`), or are gone"""
+    out = []
+    for pth, cont, k, e in before:
+        if pth in skip:
+            continue
+        try:
+            now = cont[k]
+        except (KeyError, IndexError):
+            out.append(f'{pth} entry removed')
+            continue
+        if now is not e:
+            out.append(f'{pth} entry replaced by another object')
+    return out
 
 
 def fp_diff(a, b, path=''):
